@@ -404,6 +404,23 @@ def copyToRealsF (sp : Sp) (st : St) : List Nat :=
 def copyFromRealsF (sp : Sp) (st : St) (reals : List Nat) : St :=
   writeAll sp st (valueLocationsF sp) reals
 
+/-! ### ScopedState: `reals()` and `operator=(const std::vector<double>&)`
+
+Both walk `getValueAddressAtIndex(state, 0), (…, 1), …` of the *top-level* space until it returns null (they do not use the
+value-location table). -/
+
+/-- `ScopedState::reals()` -/
+def scopedReals (sp : Sp) (st : St) : List Nat :=
+  (List.range (countFrom (addrAtIndex sp) (nReals sp + 1) 0)).map (fun i => readBits st (addrAtIndex sp i))
+
+/-- `ScopedState::operator=(reals)`: sets the first `reals.size()` doubles, stops at the first null address -/
+def scopedAssign (sp : Sp) : St → Nat → List Nat → St
+  | st, i, r :: rs =>
+    match addrAtIndex sp i with
+    | some p => scopedAssign sp (st.set p (.f64 r)) (i + 1) rs
+    | none => st
+  | st, _, [] => st
+
 /-! ### substate locations by name -/
 
 mutual
